@@ -20,7 +20,6 @@ import (
 	"github.com/lestrrat-go/jwx/v2/jwa"
 	"github.com/lestrrat-go/jwx/v2/jwk"
 	"github.com/lestrrat-go/jwx/v2/jwt"
-	ssi "github.com/nuts-foundation/go-did"
 	"github.com/nuts-foundation/go-did/did"
 
 	"github.com/nuts-foundation/nuts-node/audit"
@@ -418,5 +417,3 @@ func okVPResponse(r response) bool {
 	u, err := url.Parse(m.RedirectURI)
 	return err == nil && u.Query().Get("code") != "" && u.Query().Get("error") == ""
 }
-
-var _ = ssi.URI{}
